@@ -83,9 +83,15 @@ def generate(rng, tier):
         # a Layer may carry its own reduction, which then beats the one of the call
         if rng.random() < 0.25:
             l["op"] = rng.choice(OPS + ["sum", "mean"])
-    return {"mesh": m, "view": view, "direction": gen_direction(rng, m["ndim"]), "layers": layers, "call_mode": None,
+    case = {"mesh": m, "view": view, "direction": gen_direction(rng, m["ndim"]), "layers": layers, "call_mode": None,
             "dz": dz, "dz_unit": rng.choice([m["unit"], m["unit"], "cm", "m"]), "operation": rng.choice(OPS + ["sum", "mean"]),
             "sched": draw_schedule_config(rng, maxT=8), "knob": rng.choice([None, None, None, 1024, 16384])}
+    r_ = rng.random()
+    if r_ < 0.10:
+        case["prior"], case["prior_dz_factor"] = "dz", rng.choice([0.6, 0.8, 1.3, 1.7, 3.0])
+    elif r_ < 0.22:
+        case["prior"] = True
+    return case
 
 
 def describe(case):
@@ -109,7 +115,11 @@ def execute(case, stats):
     dry_sim = None
     kw = None
     state = None
-    if case.get("prior"):
+    if case.get("prior") == "dz":
+        # the same view mapped before with another thickness (same objects, same window, same resolution)
+        state = c03.prior_call(case, dg, extra=dict(extra, dz=extra["dz"] * case.get("prior_dz_factor", 1.4)), same_view=True)
+        stats.inc("probe.earlier_map_of_the_same_view_with_another_thickness")
+    elif case.get("prior"):
         state = c03.prior_call(case, dg, extra=extra)
         stats.inc("probe.earlier_map_with_the_same_layer_objects")
     for phase in ("t1", "sched"):
